@@ -221,6 +221,20 @@ class Ctx:
             raise Broken("driver %s failed rc=%d:\n%s" % (suite, p.returncode, p.stdout[-4000:]))
         return p.stdout
 
+    def source_dict(self):
+        """harvest the source dictionary (spec/common/Dict.tla) from the tree under check; returns the file path"""
+        if getattr(self, "_dict", None):
+            return self._dict
+        path = self.path("dict.ndjson")
+        self.drive("dict", None, path)
+        n = self.count_lines(path)
+        if n < 100:
+            raise Broken("source dictionary: only %d words harvested from %s" % (n, REPO))
+        self.note("source dictionary: %d constants harvested from the non-test sources of the tree under check" % n)
+        self.coverage_extra["source_dictionary_words"] = n
+        self._dict = path
+        return path
+
     # ------------------------------------------------------------- ndjson io
     @staticmethod
     def read_ndjson(path, unwrap=True):
